@@ -124,6 +124,10 @@ func tagCycleParser(doc *Parser, start *Token, arguments *Parser) (INodeTag, *Er
 		return nil, arguments.Error("Malformed cycle-tag.", nil)
 	}
 
+	if len(cycleNode.args) == 0 {
+		return nil, arguments.Error("'cycle' tag requires at least one argument.", nil)
+	}
+
 	return cycleNode, nil
 }
 
